@@ -915,6 +915,40 @@ func runC12(w *World, r *Report) {
 	}
 
 	// ---- registered-closure
+	r.Rule("C12.decoders-match-envelope", "everything internal/serialization reads back is read by the library that writes the envelope and the map keys verbatim (the Marshal call of serialization.Marshal): every Unmarshal* call of the package goes to that library — a reader from another library silently rewrites what the writer passed through as raw bytes (invalid UTF-8 inside a struct key becomes U+FFFD, keys collapse). The one encoder call into another library (basic values) is the one guarded by C12.representable-or-error", 3)
+	{
+		var envelopeLib string
+		instrs(w.Fn("internal/serialization", "Marshal"), func(in ssa.Instruction) {
+			if c, ok := in.(ssa.CallInstruction); ok {
+				if sc := staticCallee(c); sc != nil && sc.Pkg != nil && !w.inRepo(sc) && strings.HasPrefix(sc.Name(), "Marshal") {
+					envelopeLib = sc.Pkg.Pkg.Path()
+				}
+			}
+		})
+		if envelopeLib == "" {
+			undecidedf("C12.decoders-match-envelope: serialization.Marshal calls no external Marshal function")
+		}
+		n := 0
+		for _, fn := range w.RepoFuncs("internal/serialization") {
+			instrs(fn, func(in ssa.Instruction) {
+				c, ok := in.(ssa.CallInstruction)
+				if !ok {
+					return
+				}
+				sc := staticCallee(c)
+				if sc == nil || sc.Pkg == nil || w.inRepo(sc) || !strings.HasPrefix(sc.Name(), "Unmarshal") {
+					return
+				}
+				n++
+				lib := sc.Pkg.Pkg.Path()
+				r.Check(lib == envelopeLib, "C12.decoders-match-envelope", fmt.Sprintf("%s: decoder call #%d", w.fname(fn), n), in.Pos(), "decoded by "+envelopeLib+", which wrote it", "read with "+lib+" although the envelope and the map keys are written by "+envelopeLib+": bytes the writer passes through verbatim (a string that is not valid UTF-8 inside a registered struct used as map key) are rewritten by this reader without an error — Unmarshal returns a map whose keys differ from the ones written, and keys that differ only in such bytes collapse into one entry")
+			})
+		}
+		if n < 3 {
+			undecidedf("C12.decoders-match-envelope: only %d decoder calls found in internal/serialization", n)
+		}
+	}
+
 	r.Rule("C12.read-errors-kept", "in internal/serialization and on compose's checkpoint read/write path a success return after an error-yielding call is reached only where that error was tested nil: bytes that cannot be decoded are an error, never 'nothing stored' (shared with C05.load-errors-kept / C13.no-dropped-error)", 1)
 	{
 		nf := 0
